@@ -221,18 +221,27 @@ Print Assumptions C19_fun2core_wc_size.
 
 (* whole programs, all definitions incl. the lifted share_* ones.  fun_occ p = the largest number of
    DISTINCT typed variable occurrences (name, chirality, type) in one definition: for a type-checked
-   program at most the parameters and binders of the definition; always <= 2 * size.
+   program at most the parameters and binders of the definition (C19_fun2core_size_scoped); always <= size.
    Node counts: linear in size x (5 + occurrences);  weighted sizes (f_wprog counts the binders of
    clauses and definitions, c_wprog the clause/definition contexts): the form the pipeline needs. *)
 Theorem C19_fun2core_size : forall p c, compile_prog p = Fun2Core.Ok c ->
   size_cprog c <= size_fcprog p * (10 + 2 * fun_occ p) /\
   c_wprog c <= f_wprog p * (12 + 3 * fun_occ p) /\
-  fun_occ p <= 2 * size_fcprog p.
+  fun_occ p <= size_fcprog p.
 Proof.
   intros p c H. split; [exact (fun2core_size_nodes p c H)|]. split; [exact (fun2core_size_weighted p c H)|].
   exact (fun_occ_le_size p).
 Qed.
 Print Assumptions C19_fun2core_size.
+
+(* in terms of binders, for scoped programs: occ_scoped p (Model/SizeFun.v, a boolean containment check) = every
+   typed occurrence of a definition is one of its parameters / let variables / clause parameters / labels at the
+   declared type; fun_tb p = the largest number of those in a definition.  This is the stated form
+   size x (1 + variables), with the scoping hypothesis it needs. *)
+Theorem C19_fun2core_size_scoped : forall p c, compile_prog p = Fun2Core.Ok c -> occ_scoped p = true ->
+  size_cprog c <= size_fcprog p * (10 + 2 * fun_tb p) /\ c_wprog c <= f_wprog p * (12 + 3 * fun_tb p).
+Proof. exact fun2core_size_scoped. Qed.
+Print Assumptions C19_fun2core_size_scoped.
 
 (* the form STATED in round 1 (fun2core_size_statement above, with the parameters + binders of a
    definition as second factor) quantifies over all values of type fcprog, ill-scoped ones included, and
@@ -246,7 +255,7 @@ Print Assumptions C19_fun2core_size_statement_unscoped_refuted.
 
 (* in the size alone: quadratic, for every program the translation accepts *)
 Theorem C19_fun2core_size_quadratic : forall p c, compile_prog p = Fun2Core.Ok c ->
-  size_cprog c <= size_fcprog p * (10 + 4 * size_fcprog p).
+  size_cprog c <= size_fcprog p * (10 + 2 * size_fcprog p).
 Proof. exact fun2core_size_quadratic. Qed.
 Print Assumptions C19_fun2core_size_quadratic.
 
@@ -351,6 +360,16 @@ Theorem C19_pipeline_size : forall p c q s lc r n lc',
   len r <= 30 + x86_K * (pipeline_ax_bound p * (5 + 2 * pipeline_ax_bound p)).
 Proof. exact pipeline_x86_size. Qed.
 Print Assumptions C19_pipeline_size.
+
+(* the guard discharged through C05 (linearize_exact) when the shrunk program passes the boolean checker prog_ok
+   (typed, binders unique); modelrun evaluates sub_wf on the real linearized program of every case *)
+Theorem C19_pipeline_size_prog_ok : forall p c q s lc r n lc',
+  compile_prog p = Fun2Core.Ok c -> focus_prog c = Backend.Ok q -> shrink_prog q = SOk s ->
+  prog_ok s = true ->
+  x86_compile (linearize s) lc = Backend.Ok (r, n, lc') ->
+  len r <= 30 + x86_K * (pipeline_ax_bound p * (5 + 2 * pipeline_ax_bound p)).
+Proof. exact pipeline_x86_size_prog_ok. Qed.
+Print Assumptions C19_pipeline_size_prog_ok.
 
 (* the hypotheses are satisfiable and the stage bounds are of a sensible size on a small program with two
    shared continuations (Proof/Fun2CoreExamples.v ex_shared: 33 nodes): 259 instructions; the per-stage
